@@ -197,6 +197,12 @@ def mutate_text(r, text, kind):
     k = r.randrange(len(pos))
     i, j = pos[k]
     new = [list(l) for l in lines]
+    if kind == "renumber":     # n_colvars of another grid
+        for qi, l in enumerate(new):
+            if len(l) == 2 and l[0] == "n_colvars" and INT_RE.match(l[1]):
+                new[qi][1] = str(int(l[1]) + r.choice([-1, 1, 2]))
+                return "\n".join(" ".join(l_) for l_ in new) + "\n", "n_colvars changed to %s" % new[qi][1]
+        return None
     if kind == "insert":       # one more number after a token: positional readers shift, parameter lines have a surplus value
         if new[i][j] in ("{", "}", "#") or new[i][j] in KEYS[:2] or (new[i] and new[i][0] == "#"):
             return None        # (a longer header line can still be a header, of another grid: that is the re-gridding case)
@@ -312,7 +318,7 @@ def gen_io_case(r, k):
         c["add"] = 1 if (fmt == "multicol" and r.random() < 0.3) else 0
         c["buf"] = {"raw": 3, "rawg": 8}.get(fmt, 3)
     kinds = {"multicol": ["truncate", "drop", "garble", "insert"], "raw": ["truncate", "drop", "garble"],
-             "rawg": ["truncate", "drop", "garble"], "file": ["truncate-rows"], "state": ["truncate", "drop", "garble", "insert"],
+             "rawg": ["truncate", "drop", "garble"], "file": ["truncate-rows"], "state": ["truncate", "drop", "garble", "insert", "renumber"],
              "dx": [], "remap": ["truncate-rows", "garble"]}[fmt]
     c["mutations"] = [(kind, r.randint(0, 1 << 30)) for kind in kinds]
     return c
@@ -345,7 +351,8 @@ def read_cmds(c, text):
     if f == "remap":
         return "GR multicol %d %s TEXT %s" % (c["add"], s, bar), "READ multicol %d %s TOKS %s" % (c["add"], s, toks)
     if f == "multicol":
-        return "GR multicol %d %s TEXT %s" % (c["add"], s, bar), "READ multicol %d %s TOKS %s" % (c["add"], s, toks)
+        # every other case through the file-name variant of the reader (and its return code)
+        return "GR %s %d %s TEXT %s" % ("multicolF" if c["id"] % 2 else "multicol", c["add"], s, bar), "READ multicol %d %s TOKS %s" % (c["add"], s, toks)
     return "GR raw %s TEXT %s" % (s, bar), "READ raw %s TOKS %s" % (s, toks)
 
 
